@@ -93,9 +93,9 @@ func verifH_C13_body_readable() {
 	verifReach("end")
 }
 
-//verif:harness id=C13 tier=quick,thorough witness=end bounds="parameter defaults: query/header parameter with schema integer default 7, string default 'd', or array of integers default [1,2] (style form/spaceDelimited/pipeDelimited, explode on/off); parameter absent or present; SkipSettingDefaults on/off; after ValidateRequest the forwarded request carries the default exactly when it was absent and defaults are on; validating the forwarded request again succeeds and changes nothing; decoding the parameter again yields the default"
+//verif:harness id=C13 tier=quick,thorough witness=end bounds="parameter defaults: query / header / cookie parameter with schema integer default 7, string default 'd', or array of integers default [1,2] (style form/spaceDelimited/pipeDelimited, explode on/off); parameter absent or present; SkipSettingDefaults on/off; after ValidateRequest the forwarded request carries the default exactly when it was absent and defaults are on; validating the forwarded request again succeeds and changes nothing; decoding the parameter again yields the default"
 func verifH_C13_param_defaults() {
-	in := []string{"query", "header"}[verifChoose("in", 2)]
+	in := []string{"query", "header", "cookie"}[verifChoose("in", 3)]
 	shape := verifChoose("shape", 3)
 	var schema *openapi3.Schema
 	var wantDecoded any
@@ -111,6 +111,10 @@ func verifH_C13_param_defaults() {
 		wantDecoded = []any{int64(1), int64(2)}
 	}
 	param := &openapi3.Parameter{Name: "P", In: in, Schema: &openapi3.SchemaRef{Value: schema}}
+	if in == "cookie" && shape == 2 {
+		f := false
+		param.Explode = &f // arrays in cookies are only defined non-exploded
+	}
 	if in == "query" && shape == 2 {
 		param.Style = []string{"", "form", "spaceDelimited", "pipeDelimited"}[verifChoose("style", 4)]
 		switch verifChoose("explode", 3) {
@@ -129,33 +133,36 @@ func verifH_C13_param_defaults() {
 	req := &http.Request{Method: "GET", Header: http.Header{}, URL: &url.URL{Path: "/"}}
 	present := verifChoose("present", 2) == 1
 	if present {
-		if in == "query" {
+		switch in {
+		case "query":
 			req.URL.RawQuery = "P=5"
-		} else {
+		case "header":
 			req.Header["P"] = []string{"5"}
+		case "cookie":
+			req.Header["Cookie"] = []string{"P=5"}
 		}
 	}
 	skip := verifChoose("skip", 2) == 1
 	opts := &Options{SkipSettingDefaults: skip}
 	route := &routers.Route{Spec: &openapi3.T{}, PathItem: &openapi3.PathItem{Get: op}, Operation: op, Method: "GET"}
-	rawBefore, hdrBefore := req.URL.RawQuery, len(req.Header["P"])
+	rawBefore, hdrBefore, cookiesBefore := req.URL.RawQuery, len(req.Header["P"]), len(req.Header["Cookie"])
 	err := ValidateRequest(context.Background(), &RequestValidationInput{Request: req, Route: route, Options: opts})
 	verifAssert(err == nil, "C13 parameter defaults: an optional parameter that is absent or well-formed validates")
 	if present || skip {
-		verifAssert(req.URL.RawQuery == rawBefore && len(req.Header["P"]) == hdrBefore, "C13 parameter defaults: nothing is written when the parameter is present or default-setting is skipped")
+		verifAssert(req.URL.RawQuery == rawBefore && len(req.Header["P"]) == hdrBefore && len(req.Header["Cookie"]) == cookiesBefore, "C13 parameter defaults: nothing is written when the parameter is present or default-setting is skipped")
 		verifReach("end")
 		return
 	}
 	// the forwarded request now carries the default: decode it again
 	explodeOff := param.Explode != nil && !*param.Explode
-	verifKnown("C13-array-default-serialisation", shape == 2 && (in == "header" || (explodeOff && (param.Style == "spaceDelimited" || param.Style == "pipeDelimited"))))
+	verifKnown("C13-array-default-serialisation", shape == 2 && (in == "header" || in == "cookie" || (explodeOff && (param.Style == "spaceDelimited" || param.Style == "pipeDelimited"))))
 	got, found, derr := decodeStyledParameter(param, &RequestValidationInput{Request: req})
 	verifAssert(derr == nil && found, "C13 parameter defaults: the forwarded request carries the defaulted parameter")
 	verifAssert(verifSameJSON(got, wantDecoded), "C13 parameter defaults: the forwarded parameter decodes to the default value")
 	// second validation: succeeds and changes nothing
-	raw2, hdr2 := req.URL.RawQuery, len(req.Header["P"])
+	raw2, hdr2, ck2 := req.URL.RawQuery, len(req.Header["P"]), len(req.Header["Cookie"])
 	err2 := ValidateRequest(context.Background(), &RequestValidationInput{Request: req, Route: route, Options: opts})
-	verifAssert(err2 == nil && req.URL.RawQuery == raw2 && len(req.Header["P"]) == hdr2, "C13 parameter defaults: the forwarded request validates again and a second validation changes nothing")
+	verifAssert(err2 == nil && req.URL.RawQuery == raw2 && len(req.Header["P"]) == hdr2 && len(req.Header["Cookie"]) == ck2, "C13 parameter defaults: the forwarded request validates again and a second validation changes nothing")
 	verifReach("end")
 }
 
